@@ -507,7 +507,8 @@ func (q *QueryRangeService) QueryInstant(ctx context.Context, query string, time
 
 			stream.WriteObjectField("value")
 			stream.WriteArrayStart()
-			stream.WriteInt64(e.TimestampNS / 1000000000)
+			// Unix seconds with the millisecond part as fraction (whole seconds stay integers)
+			stream.WriteFloat64(float64(e.TimestampNS/1000000) / 1000)
 			stream.WriteMore()
 			stream.WriteString(val)
 			stream.WriteArrayEnd()
